@@ -1,0 +1,30 @@
+//go:build !verif
+
+package loom
+
+const (
+	VerifSiteQueueLoad = 1 + iota
+	VerifSiteQueueCas
+	VerifSiteWheelFetchLoadPosition
+	VerifSiteWheelFetchLoadSlot
+	VerifSiteWheelFetchReloadPosition
+	VerifSiteWheelTickLoadPosition
+	VerifSiteWheelTickLoadSlot
+	VerifSiteWheelTickStorePosition
+	VerifSiteWheelTickStoreSlot
+	VerifSiteWheelTickClose
+	VerifSiteTryLockCas1
+	VerifSiteTryLockLoad
+	VerifSiteTryLockCas2
+	VerifSiteFlagLoad
+	VerifSiteFlagCas
+	VerifSiteAddIfLoad
+	VerifSiteAddIfCas
+	VerifSiteWcLoadState
+	VerifSiteWcBeforeLock
+	VerifSiteWcAfterLock
+	VerifSiteWcAfterUnlock
+	VerifSiteWcStoreState
+)
+
+func verifYield(int) {}
